@@ -75,6 +75,7 @@ type Shim struct {
 	wake      chan struct{}
 	ContainerStates atomic.Int64
 	EventsSeen      atomic.Int64
+	fences map[string]chan struct{}
 	// OnRecv, if set, is called (outside the shim lock) for every received event: used by the conc engine.
 	OnRecv func(e *Ev)
 	// KeepPreds limits the predicate log (0 = unlimited)
@@ -182,6 +183,16 @@ func (s *Shim) UpdateApplication(response *si.ApplicationResponse) error {
 	}
 	for _, a := range response.Rejected {
 		if strings.HasPrefix(a.ApplicationID, SentinelPrefix) {
+			s.mu.Lock()
+			ch, isFence := s.fences[a.ApplicationID]
+			if isFence {
+				delete(s.fences, a.ApplicationID)
+			}
+			s.mu.Unlock()
+			if isFence {
+				close(ch)
+				continue
+			}
 			s.appSeen.Add(1)
 			s.poke()
 			continue
@@ -278,4 +289,17 @@ func fromProto(r *si.Resource) res.R {
 		}
 	}
 	return out
+}
+
+
+// NewFence registers a fence id; the returned channel is closed when the core's answer for it arrives.
+func (s *Shim) NewFence(id string) chan struct{} {
+	ch := make(chan struct{})
+	s.mu.Lock()
+	if s.fences == nil {
+		s.fences = map[string]chan struct{}{}
+	}
+	s.fences[id] = ch
+	s.mu.Unlock()
+	return ch
 }
